@@ -19,14 +19,16 @@ type leafSpec struct {
 
 var big19 = "9223372036854775807"
 var big20 = "99999999999999999999"
+var two63 = "9223372036854775808"
+var maxU64 = "18446744073709551615"
 
 var leafSpecs = []leafSpec{
 	{'l', `1`, []SRule{Ru("min", "0"), Ru("min", "1"), Ru("max", "1"), Ru("max", "5.0"), Ru("exclusiveMinimum", "true"), Ru("exclusiveMaximum", "false"),
 		Ru("type", `"integer"`), Ru("const", "true"), Ru("const", "false"), Ru("nullable", "true"), Ru("nullable", "false"),
 		Ru("enum", `[1, 2]`), Ru("enum", `@e`), Ru("or", `["integer", "string"]`), Ru("or", `[{type: "integer", min: 0}, {type: "string"}]`), Ru("or", `[{type: "enum", enum: [1, "x"]}, {type: "boolean"}]`),
 		Ru("type", `"any"`), Ru("type", `"@a"`), Ru("type", `"mixed"`), Ru("type", `"enum"`)}},
-	{'l', `1.5`, []SRule{Ru("precision", "1"), Ru("precision", "2"), Ru("min", "0.5"), Ru("max", "1.50"), Ru("type", `"float"`), Ru("type", `"decimal"`), Ru("nullable", "true"), Ru("const", "true")}},
-	{'l', `"ab"`, []SRule{Ru("minLength", "0"), Ru("minLength", "2"), Ru("maxLength", "2"), Ru("maxLength", big19), Ru("maxLength", big20), Ru("regex", `"^a"`), Ru("regex", `"a\\.b|ab"`),
+	{'l', `1.5`, []SRule{Ru("precision", "1"), Ru("precision", "2"), Ru("precision", two63), Ru("min", "0.5"), Ru("max", "1.50"), Ru("type", `"float"`), Ru("type", `"decimal"`), Ru("nullable", "true"), Ru("const", "true")}},
+	{'l', `"ab"`, []SRule{Ru("minLength", "0"), Ru("minLength", "2"), Ru("maxLength", "2"), Ru("maxLength", big19), Ru("maxLength", big20), Ru("maxLength", two63), Ru("maxLength", maxU64), Ru("regex", `"^a"`), Ru("regex", `"a\\.b|ab"`),
 		Ru("type", `"string"`), Ru("const", "true"), Ru("enum", `["ab", "c"]`), Ru("enum", `@e`), Ru("type", `"@b"`), Ru("or", `["@b", "integer"]`), Ru("or", `[{type: "string", maxLength: 3}, {type: "@a"}]`), Ru("nullable", "true")}},
 	{'l', `"a@b.cc"`, []SRule{Ru("type", `"email"`), Ru("nullable", "true"), Ru("minLength", "1")}},
 	{'l', `"2021-01-02"`, []SRule{Ru("type", `"date"`), Ru("const", "true")}},
@@ -39,7 +41,7 @@ var leafSpecs = []leafSpec{
 	{'r', `@a | @b`, []SRule{Ru("nullable", "true")}},
 	{'o', ``, []SRule{Ru("additionalProperties", "true"), Ru("additionalProperties", "false"), Ru("additionalProperties", `"string"`), Ru("additionalProperties", `"@a"`), Ru("additionalProperties", `"any"`),
 		Ru("allOf", `"@a"`), Ru("allOf", `["@a", "@c"]`), Ru("nullable", "true"), Ru("type", `"object"`), Ru("or", `[{type: "object"}, {type: "string"}]`), Ru("type", `"@a"`), Ru("type", `"any"`)}},
-	{'a', ``, []SRule{Ru("minItems", "0"), Ru("maxItems", "0"), Ru("maxItems", big20), Ru("type", `"array"`), Ru("nullable", "true"), Ru("or", `["array", "@a"]`), Ru("type", `"any"`)}},
+	{'a', ``, []SRule{Ru("minItems", "0"), Ru("maxItems", "0"), Ru("maxItems", big20), Ru("maxItems", maxU64), Ru("type", `"array"`), Ru("nullable", "true"), Ru("or", `["array", "@a"]`), Ru("type", `"any"`)}},
 }
 
 var containerPools = map[byte][]SRule{
